@@ -188,11 +188,17 @@ def replay_crash(chk, j, first_out):
 def obs_violation(o):
     """the property's own predicate on one injected datagram: drop classes must have no effect"""
     cls = o["class"]
-    if cls in ("clear", "auth"):
-        return None
+    if cls in ("clear", "auth", "slot", "pinlen"):
+        return None   # slot / pinlen: judged by what happens to the handshake (their own monitors)
     e = o["eff"]
     if not e:
         return None
+    if cls == "hsfar":
+        # a well-formed fragment of a far-future message is a handshake datagram: the endpoint may answer it with its
+        # current flight (HelloVerifyRequest again, ...); anything else (error, alert, close, delivery) is an effect
+        e = {k: v for k, v in e.items() if k != "emit"}
+        if not e:
+            return None
     if (cls.startswith("alert:") or cls == "ccs0") and not o["est"]:
         return None  # exception X1: an unprotected fatal alert / close_notify ends a handshake in progress; an
         #              unprotected change_cipher_spec is part of the (unauthenticated) handshake while it runs
@@ -219,6 +225,10 @@ def drop_kind(cls):
         return "unprotected fatal alert / close_notify"
     if cls == "app0":
         return "unprotected application_data record"
+    if cls == "rrc0":
+        return "unprotected return_routability_check record"
+    if cls == "hsfar":
+        return "unprotected fragment of a far-future handshake message"
     if cls == "ccs0":
         return "unprotected change_cipher_spec record"
     if cls == "undec:ccs-epoch":
@@ -239,6 +249,10 @@ def site_of(cls):
         return "conn.go handleRecordContent (alert record of epoch 0 on an established connection)"
     if cls == "app0":
         return "conn.go handleApplicationDataRecord (epoch 0)"
+    if cls == "rrc0":
+        return "connection_id.go returnRoutabilityConn.HandleRecord (unprotected record: unexpected_message alert + error)"
+    if cls == "hsfar":
+        return "conn.go bufferHandshakeRecord / legacyReplayMarker"
     if cls == "ccs0":
         return "conn.go handleChangeCipherSpecRecord"
     if cls == "undec:ccs-epoch":
@@ -258,7 +272,8 @@ def model_term(o):
          "warn": "KWarnAlert" if o.get("fresh") else "KUndecStale",
          "alert:fatal": "KFatalAlert" if o.get("fresh") else "KUndecStale",
          "alert:close": "KCloseNotify" if o.get("fresh") else "KUndecStale",
-         "app0": "KClearApp", "ccs0": "KClearCcs" if o["est"] else None}.get(cls, "?")
+         "app0": "KClearApp", "ccs0": "KClearCcs" if o["est"] else None,
+         "hsfar": None, "pinlen": None, "slot": None, "rrc0": "KClearRrc"}.get(cls, "?")
     if k is None or o.get("nrec", 0) > 1:
         return None  # only single-record datagrams (and datagrams that do not split) have a one-step prediction
     if cls.startswith("unsplit:"):
@@ -300,6 +315,46 @@ def run(chk):
     vlib.cleanup(outu)
     if rcu != 0:
         chk.broken("unit harness TestVerifC08Decrypt no longer runs (%s)" % vlib.classify_go_failure(ou), ou)
+
+    # ---- unit leg F69: PSKPreMasterSecret at the 16-bit edge (a crash reachable by configuration)
+    outp = vlib.out_path("c08p")
+    rcp, op = vlib.go_test("./pkg/crypto/prf", "^TestVerifC08PSKLength$", {"VERIF_OUT": outp}, tags=["c08"], timeout=600)
+    prows = vlib.read_jsonl(outp)
+    vlib.cleanup(outp)
+    if rcp != 0 or not prows:
+        chk.broken("unit harness TestVerifC08PSKLength no longer runs (%s)" % vlib.classify_go_failure(op), op)
+    for r in prows:
+        if r.get("panic") or not r.get("shape"):
+            found = True
+            chk.finding("pkg/crypto/prf/prf.go PSKPreMasterSecret",
+                        {"monitor": "panic" if r.get("panic") else "malformed pre_master_secret", "function": "prf.PSKPreMasterSecret"},
+                        "PSKPreMasterSecret on a pre-shared key of %d bytes %s (the handshake goroutine of an endpoint "
+                        "configured with such a key crashes)" % (
+                            r["len"], "panics: " + r["panic"] if r.get("panic") else "returns %d bytes of the wrong shape" % r["out_len"]),
+                        {"psk_length": r["len"], "row": r, "how": "prf.PSKPreMasterSecret(bytes.Repeat([]byte{0xab}, psk_length))"})
+            break
+
+    # ---- unit leg K-C08-4: the listener's inbound packet buffer
+    outb = vlib.out_path("c08b")
+    rcb, ob = vlib.go_test("./internal/net", "^TestVerifC08PacketBuffer$", {"VERIF_OUT": outb}, tags=["c08"], timeout=600)
+    brows = vlib.read_jsonl(outb)
+    vlib.cleanup(outb)
+    if rcb != 0 or not brows:
+        chk.broken("unit harness TestVerifC08PacketBuffer no longer runs (%s)" % vlib.classify_go_failure(ob), ob)
+    for r in brows:
+        # every documented limit (2 MB reassembly, 100 queued records of at most 8 KB) is far below 4 MB / 1024 datagrams
+        if r["queued"] > 1024 or r["bytes"] > (4 << 20) or r["bytes_after"] > (4 << 20):
+            found = True
+            chk.finding("internal/net/buffer.go PacketBuffer.WriteTo (listener: per-connection inbound queue)",
+                        {"monitor": "unbounded inbound packet buffer"},
+                        "the listener's per-connection inbound PacketBuffer has no limit and never shrinks: %d datagrams of %d "
+                        "bytes written while the connection does not read are all queued (%d held, %d slots, %d bytes); after "
+                        "draining it still holds %d slots / %d bytes" % (
+                            r["written"], r["size"], r["queued"], r["slots"], r["bytes"], r["slots_after"], r["bytes_after"]),
+                        {"row": r, "how": "NewPacketBuffer(); WriteTo(make([]byte, size), addr) `written` times without "
+                                          "ReadFrom; what a listener does for every datagram from a known remote address, "
+                                          "before any DTLS parsing (12000 unparsable 1000-byte datagrams suffice)"})
+            break
 
     # ---- M1 panic / deadlock / livelock: one finding per (function, message); all cases that hit it listed
     by_site = {}
@@ -348,8 +403,9 @@ def run(chk):
             v = obs_violation(o)
             if v is None:
                 continue
-            g = (drop_kind(o["class"]), "during dual-stack version negotiation" if (o.get("neg") and o["class"] == "warn")
-                 else ("before establishment" if not o["est"] else "after establishment"))
+            g = (drop_kind(o["class"]), "in every phase" if o["class"] == "rrc0" else (
+                "during dual-stack version negotiation" if (o.get("neg") and o["class"] == "warn")
+                else ("before establishment" if not o["est"] else "after establishment")))
             cur = groups.setdefault(g, {"ex": None, "effects": set(), "n": 0, "classes": set()})
             cur["n"] += o["n"]
             cur["effects"].add(v)
@@ -383,7 +439,7 @@ def run(chk):
     # are delivered both ways, and the FIRST Read of each side returns the peer's payload, not an error.
     late, firsts = [], []
     for c in cases:
-        if not c.get("inert") or c["gen"].startswith("flood") or c["inj"] == 0:
+        if not c.get("inert") or c["gen"].startswith("flood") or c["gen"] in ("slot", "pinlen") or c["inj"] == 0:
             continue
         if any(obs_violation(o) for o in c["obs"] or []):
             continue  # already reported through the datagram that did it
@@ -418,12 +474,48 @@ def run(chk):
                      "datagrams": [o.get("hex") for o in c["obs"] or []], "case": c,
                      "all": [(x["id"], x["variant"], x["stage"], x["gen"], x["inj"]) for x in firsts[:20]]})
 
+    # ---- K-C08-2: the slot of a message the peer sends PROTECTED, taken by one unprotected record
+    sl = [c for c in cases if c["gen"] == "slot" and c["inj"] > 0]
+    bad = [c for c in sl if not (c["done"] and c["echo_cs"] and c["echo_sc"])]
+    if bad:
+        c = sorted(bad, key=lambda c: (not c["variant"].startswith("v13"), c["stalled"] is False, c["id"]))[0]
+        found = True
+        chk.finding("internal/fragmentbuffer/fragment_buffer.go (reassembly keyed by message_seq only) / conn.go "
+                    "bufferHandshakeRecord / flight parsers",
+                    {"monitor": "handshake slot of a protected message taken by an unprotected record"},
+                    "ONE unprotected (epoch 0) handshake record carrying the type and message_seq of a message the genuine peer "
+                    "sends PROTECTED (DTLS 1.3 EncryptedExtensions ..., DTLS 1.2 Finished) is reassembled with epoch 0; the "
+                    "flight parser wants the protected epoch, the sequence moves on and the genuine message is skipped as a "
+                    "retransmission or refused: the handshake never completes / is aborted [%d of %d cases; e.g. variant %s "
+                    "before handshake datagram #%d, target %s: client=%s server=%s]" % (
+                        len(bad), len(sl), c["variant"], c["stage"], c["target"], c["cerr"], c["serr"]),
+                    {"how": "VERIF_C08_ONLY=%d VERIF_C08_TRACE=1; datagrams delivered to `target` before handshake datagram "
+                            "#stage" % c["id"], "variant": c["variant"], "stage": c["stage"], "target": c["target"],
+                     "datagrams": [o.get("hex") for o in c["obs"] or []], "case": c,
+                     "all": [(x["id"], x["variant"], x["stage"], x["target"], x["cerr"], x["serr"]) for x in bad[:30]]})
+    # ---- K-C08-3b: one forged first fragment pins the length of the next expected message
+    pl = [c for c in cases if c["gen"] == "pinlen" and c["inj"] > 0 and c["stage"] >= 0]
+    bad = [c for c in pl if not (c["done"] and c["echo_cs"] and c["echo_sc"])]
+    if bad:
+        c = sorted(bad, key=lambda c: c["id"])[0]
+        found = True
+        chk.finding("internal/fragmentbuffer/fragment_buffer.go pushHandshakeFragments (first fragment fixes handshakeLength)",
+                    {"monitor": "next handshake message made unassemblable by one forged fragment"},
+                    "ONE unprotected one-byte fragment {message_seq = next expected, offset 0, declared length 5000} pins the "
+                    "length of the next message: the genuine message (other length, same offset) can never be reassembled and "
+                    "the handshake never completes [%d of %d cases; e.g. variant %s before handshake datagram #%d, target %s: "
+                    "client=%s server=%s]" % (len(bad), len(pl), c["variant"], c["stage"], c["target"], c["cerr"], c["serr"]),
+                    {"how": "VERIF_C08_ONLY=%d VERIF_C08_TRACE=1" % c["id"], "variant": c["variant"], "stage": c["stage"],
+                     "target": c["target"], "datagrams": [o.get("hex") for o in c["obs"] or []], "case": c,
+                     "all": [(x["id"], x["variant"], x["stage"], x["target"]) for x in bad[:30]]})
+
     # ---- M3 bounds
     for c in cases:
         if c["qmax"] > 100 or c["fb_count"] > 1000 or c["fb_size"] >= 2000000:
             found = True
             chk.finding("conn.go enqueueEncryptedPackets / fragment_buffer.go Push",
-                        {"monitor": "fixed buffering limit exceeded"},
+                        {"monitor": "fixed buffering limit exceeded",
+                         "limit": "queue" if c["qmax"] > 100 else ("fragment count" if c["fb_count"] > 1000 else "bytes")},
                         "queue %d (limit 100), fragments %d (limit 1000), bytes %d (limit 2000000)" % (
                             c["qmax"], c["fb_count"], c["fb_size"]), {"case": c})
             break
@@ -437,14 +529,14 @@ def run(chk):
                         "130 forged next-epoch records: the endpoint did not complete / deliver afterwards "
                         "[variant %s stage %d]" % (c["variant"], c["stage"]), {"case": c})
             break
-    ff = [c for c in cases if c["gen"] == "flood-frag"]
+    ff = [c for c in cases if c["gen"] in ("flood-frag", "flood-frag2")]
     # two different defects, two signatures: (a) an ESTABLISHED connection no longer delivers application data
     # (repaired in 826a95e, must stay detectable), (b) a handshake IN PROGRESS never completes
     for phase, sel in (("established", [c for c in ff if c["stage"] < 0]), ("handshake", [c for c in ff if c["stage"] >= 0])):
         bad = [c for c in sel if not (c["done"] and c["echo_cs"] and c["echo_sc"])]
         if not bad:
             continue
-        c = sorted(bad, key=lambda c: c["id"])[0]
+        c = sorted(bad, key=lambda c: (c["gen"] != "flood-frag", c["id"]))[0]   # canonical member first (F39)
         found = True
         if phase == "established":
             site = ("internal/fragmentbuffer/fragment_buffer.go Push (limit check precedes the content-type check) / "
@@ -478,6 +570,19 @@ def run(chk):
                                                         len(grow), len(fc)),
                     {"how": "VERIF_C08_ONLY=%d; datagram i = 16fefd 0000 00000000<9000+i> 0264 | 00 000258 "
                             "<recv_seq+i> 000000 000258 | 600 bytes" % c["id"], "case": c})
+    fa = [c for c in cases if c["gen"] == "flood-cache-auth" and c["done"] and c["inj"] >= 100]
+    grow = [c for c in fa if c["cache1"] - c["cache0"] > 50]
+    if grow:
+        c = grow[0]
+        found = True
+        chk.finding("conn.go bufferHandshakeRecord -> internal/flight/cache.go Push (post-handshake messages of the peer)",
+                    {"monitor": "unbounded handshake cache growth after establishment", "sender": "authenticated peer"},
+                    "the established endpoint keeps every post-handshake handshake message of its AUTHENTICATED peer in the "
+                    "handshake cache, which nothing reads or prunes: %d protected messages -> %d new entries [variant %s, "
+                    "target %s, %d/%d such cases]" % (c["inj"], c["cache1"] - c["cache0"], c["variant"], c["target"],
+                                                      len(grow), len(fa)),
+                    {"how": "VERIF_C08_ONLY=%d; 300 in-order protected handshake messages (1.3: valid NewSessionTickets to the "
+                            "client, 1.2: type-0 messages of 600 bytes) sealed with the session keys" % c["id"], "case": c})
     mem = [r for r in rows if r["kind"] == "mem"]
     heap = max([m.get("heap_mb", 0) for m in mem] or [0])
     if heap > 400:
@@ -524,6 +629,8 @@ def run(chk):
         outcomes[k] = outcomes.get(k, 0) + 1
     chk.count("e2e", n_inj, keys, samples=[{"variant": c["variant"], "stage": c["stage"], "gen": c["gen"],
                                             "obs": (c["obs"] or [])[:2]} for c in cases[:3]])
+    chk.count("psk-length-unit", len(prows), [(r["len"], bool(r.get("panic"))) for r in prows], samples=prows[-3:])
+    chk.count("packet-buffer-unit", len(brows), [(r["written"], r["size"]) for r in brows], samples=brows[:2])
     chk.count("decrypt-unit", len(urows), [(u["suite"], u["kind"], u.get("err", "")) for u in urows],
               samples=urows[:2])
     chk.cov["traces_validated_against_impl"] = len(cases)
